@@ -1,5 +1,7 @@
 import Rustic.Gen.Constants
 import Rustic.Lemmas.Chunker
 import Rustic.Model.Chunker
+import Rustic.Model.Parent
 import Rustic.Model.Rabin
+import Rustic.Model.Tree
 import Rustic.Props.C06
